@@ -59,6 +59,11 @@ CLAIMED = {
             "symbolic array / all int64 values and all offsets and widths against a big-endian bit-vector reference and Redis' overflow functions; "
             "BITFIELD GET/SET/INCRBY through the real dispatcher (type table, bit and #-offsets, every OVERFLOW mode, symbolic stored bytes and value) against "
             "bitfieldGeneric; SETBIT/GETBIT, BITCOUNT and BITPOS for all int64 ranges on strings of <= 1 byte (quick) / 2 bytes (thorough), BITOP with zero padding", "5/C18"),
+    "C19": ("bounded symbolic model checking of the real save/load code over a file-system/gob model (files are record lists; every Create/Encode/Rename/Remove is one "
+            "effect; gob's empty-slice quirk is modelled): save -> restart -> load restores keys, types, values, element order, deadlines and the version counter for a store "
+            "with symbolic values of every type; a further acknowledged change out of 16 (in-place, deleting, flushing, renaming) survives a second save/restart; a save cut "
+            "after any number of effects loads as the old or the new snapshot; and (L2 dirty gate) for 147 command templates x 5 key types: state changed => store marked "
+            "dirty. Counterexamples replay natively on real files with real gob", "5/C19"),
 }
 
 NOT_APPLICABLE = {
